@@ -482,7 +482,12 @@ def trajectory_rules(ctx, rule='R4'):
         ini = m.cls(TRJ, cn_).method('__init__')
         ps_ = set(ini.params[1:])
         rebound = sorted({x.id for x in ast.walk(ini.node) if isinstance(x, ast.Name) and isinstance(x.ctx, (ast.Store, ast.Del)) and x.id in ps_})
-        stores = {norm(s_.targets[0]): norm(s_.value) for s_ in walk_own(ini.node) if isinstance(s_, ast.Assign) and norm(s_.targets[0]).startswith('self.')}
+        stores = {}
+        for s_ in walk_own(ini.node):
+            if isinstance(s_, ast.Assign):
+                tg_, vl_ = s_.targets[0], s_.value
+                prs_ = list(zip(tg_.elts, vl_.elts)) if isinstance(tg_, (ast.Tuple, ast.List)) and isinstance(vl_, (ast.Tuple, ast.List)) and len(tg_.elts) == len(vl_.elts) else [(tg_, vl_)]
+                stores.update({norm(t_): norm(v_) for t_, v_ in prs_ if norm(t_).startswith('self.')})
         ctx.inst(rule, ini, 'arguments-kept-as-given', not rebound and bool(stores) and all(v_ in ps_ for v_ in stores.values()) and len(stores) == len(ps_),
                  '%s.__init__ stores each argument unchanged (re-bound: %s; stores: %s)' % (cn_, rebound, stores))
     for fn, want in (('_encode_spatial', 'int({0} * 1000)'), ('_encode_yaw', 'int(math.degrees({0}) * 10)')):
@@ -718,7 +723,7 @@ def quaternion_rules(ctx, rule='R3'):
     ctx.inst(rule, dq, 'index-shift=30', len(il) == 1 and norm(il[0].value) == 'comp >> 30', 'index is read from bits 31..30 (3 groups x 10 bits)')
     wm = [s for s in walk_own(wl[0]) if isinstance(s, ast.Assign) and norm(s.targets[0]) == 'mag']
     ms = [s for s in cq.node.body if isinstance(s, ast.Assign) and norm(s.targets[0]) == 'M_SQRT1_2']
-    okw = len(wm) == 1 and norm(wm[0].value) == 'int(((1 << 9) - 1) * (abs(quat_n[%s]) / M_SQRT1_2) + 0.5)' % norm(wl[0].target) and \
+    okw = len(wm) == 1 and norm(wm[0].value) in ('int(%s * (abs(quat_n[%s]) / M_SQRT1_2) + 0.5)' % (f_, norm(wl[0].target)) for f_ in ('((1 << 9) - 1)', '511')) and \
         len(ms) == 1 and norm(ms[0].value) in ('1.0 / np.sqrt(2)', '1 / np.sqrt(2)', '1.0 / math.sqrt(2)')
     ctx.inst(rule, cq, 'writer-scale', okw, 'magnitude = round(511 * |q| / (1/sqrt2))')
     rq = [s for s in walk_own(rl[0]) if isinstance(s, ast.Assign) and norm(s.targets[0]) == 'q[%s]' % norm(rl[0].target)]
